@@ -117,3 +117,308 @@ Proof.
   apply (settle_loop_post (fun a => flatb a = true) (fun y => Ok (csimplify y))) in E; auto.
   intros a a' c Ea. inversion Ea. pose proof (flat_csimplify a) as Hs. rewrite H0 in Hs. exact Hs.
 Qed.
+
+(* ------------------------------------------------------------------ *)
+(* SpecialValueCanonicalization                                        *)
+
+Lemma fold_cp_idem : forall c, fold_cp (fold_cp c) = fold_cp c.
+Proof.
+  intro c. unfold fold_cp.
+  destruct ((65 <=? c) && (c <=? 90))%N eqn:E1.
+  - apply andb_true_iff in E1. destruct E1 as [A B]. apply N.leb_le in A. apply N.leb_le in B.
+    replace ((65 <=? c + 32) && (c + 32 <=? 90))%N with false
+      by (symmetry; apply andb_false_iff; right; apply N.leb_gt; lia).
+    replace ((192 <=? c + 32) && (c + 32 <=? 222) && negb (c + 32 =? 215))%N with false; [reflexivity|].
+    symmetry. apply andb_false_iff. left. apply andb_false_iff. left. apply N.leb_gt. lia.
+  - destruct ((192 <=? c) && (c <=? 222) && negb (c =? 215))%N eqn:E2.
+    + apply andb_true_iff in E2. destruct E2 as [E2 _]. apply andb_true_iff in E2. destruct E2 as [A B].
+      apply N.leb_le in A. apply N.leb_le in B.
+      replace ((65 <=? c + 32) && (c + 32 <=? 90))%N with false
+        by (symmetry; apply andb_false_iff; right; apply N.leb_gt; lia).
+      replace ((192 <=? c + 32) && (c + 32 <=? 222) && negb (c + 32 =? 215))%N with false; [reflexivity|].
+      symmetry. apply andb_false_iff. left. apply andb_false_iff. right. apply N.leb_gt. lia.
+    + rewrite E1, E2. reflexivity.
+Qed.
+
+Lemma lower_is_casefold : forall s, lower s = casefold s.
+Proof. reflexivity. Qed.
+
+Lemma casefold_idem : forall s, casefold (casefold s) = casefold s.
+Proof. induction s; simpl; [reflexivity|]. rewrite fold_cp_idem, IHs. reflexivity. Qed.
+
+Lemma nibble_fold : forall c, nibble (fold_cp c) = nibble c.
+Proof.
+  intro c. unfold fold_cp.
+  destruct ((65 <=? c) && (c <=? 90))%N eqn:E1.
+  - apply andb_true_iff in E1. destruct E1 as [A B]. apply N.leb_le in A. apply N.leb_le in B.
+    unfold nibble.
+    replace ((48 <=? c + 32) && (c + 32 <=? 57))%N with false by (symmetry; apply andb_false_iff; right; apply N.leb_gt; lia).
+    replace ((65 <=? c + 32) && (c + 32 <=? 70))%N with false by (symmetry; apply andb_false_iff; right; apply N.leb_gt; lia).
+    replace ((48 <=? c) && (c <=? 57))%N with false by (symmetry; apply andb_false_iff; right; apply N.leb_gt; lia).
+    replace (65 <=? c)%N with true by (symmetry; apply N.leb_le; lia).
+    replace (97 <=? c + 32)%N with true by (symmetry; apply N.leb_le; lia).
+    replace (97 <=? c)%N with false by (symmetry; apply N.leb_gt; lia).
+    simpl. destruct (c <=? 70)%N eqn:E70.
+    + apply N.leb_le in E70. replace (c + 32 <=? 102)%N with true by (symmetry; apply N.leb_le; lia). lia.
+    + apply N.leb_gt in E70. replace (c + 32 <=? 102)%N with false by (symmetry; apply N.leb_gt; lia). reflexivity.
+  - destruct ((192 <=? c) && (c <=? 222) && negb (c =? 215))%N eqn:E2; [|reflexivity].
+    apply andb_true_iff in E2. destruct E2 as [E2 _]. apply andb_true_iff in E2. destruct E2 as [A B].
+    apply N.leb_le in A. apply N.leb_le in B. unfold nibble.
+    replace ((48 <=? c + 32) && (c + 32 <=? 57))%N with false by (symmetry; apply andb_false_iff; right; apply N.leb_gt; lia).
+    replace ((65 <=? c + 32) && (c + 32 <=? 70))%N with false by (symmetry; apply andb_false_iff; right; apply N.leb_gt; lia).
+    replace ((97 <=? c + 32) && (c + 32 <=? 102))%N with false by (symmetry; apply andb_false_iff; right; apply N.leb_gt; lia).
+    replace ((48 <=? c) && (c <=? 57))%N with false by (symmetry; apply andb_false_iff; right; apply N.leb_gt; lia).
+    replace ((65 <=? c) && (c <=? 70))%N with false by (symmetry; apply andb_false_iff; right; apply N.leb_gt; lia).
+    replace ((97 <=? c) && (c <=? 102))%N with false by (symmetry; apply andb_false_iff; right; apply N.leb_gt; lia).
+    reflexivity.
+Qed.
+
+Lemma hex_decode_fold : forall s, hex_decode (casefold s) = hex_decode s.
+Proof.
+  fix IH 1. intros [|a [|b r]]; try reflexivity.
+  simpl. rewrite !nibble_fold. f_equal. apply IH.
+Qed.
+
+(* the model's path classifier agrees with the specification's *)
+Lemma special_kind_reg : forall t p, special_kind t p = SpReg -> regkey_path t p = true.
+Proof.
+  intros t p E. unfold special_kind in E. unfold regkey_path.
+  destruct (ustr_eqb t (u "windows-registry-key")) eqn:Et.
+  - simpl. destruct (path_is1 p "key" || path_is_values_name p) eqn:Ep; [|discriminate].
+    unfold path_is1, path_is_values_name in Ep.
+    destruct p as [|a [|i [|b [|? ?]]]]; simpl in Ep; try discriminate; rewrite ?orb_false_r in Ep; exact Ep.
+  - destruct (ustr_eqb t (u "ipv4-addr")); [destruct (path_is1 p "value"); discriminate|].
+    destruct (ustr_eqb t (u "ipv6-addr")); [destruct (path_is1 p "value"); discriminate|]. discriminate.
+Qed.
+
+Lemma special_kind_ip : forall t p v6, special_kind t p = SpIp v6 -> regkey_path t p = false.
+Proof.
+  intros t p v6 E. unfold special_kind in E. unfold regkey_path.
+  destruct (ustr_eqb t (u "windows-registry-key")) eqn:Et; [|reflexivity].
+  destruct (path_is1 p "key" || path_is_values_name p); discriminate.
+Qed.
+
+Lemma special_kind_none : forall t p, special_kind t p = SpNone -> regkey_path t p = false.
+Proof.
+  intros t p E. unfold special_kind in E. unfold regkey_path.
+  destruct (ustr_eqb t (u "windows-registry-key")) eqn:Et; [|reflexivity].
+  simpl. destruct (path_is1 p "key" || path_is_values_name p) eqn:Ep; [discriminate|].
+  unfold path_is1, path_is_values_name in Ep.
+  destruct p as [|a [|i [|b [|? ?]]]]; simpl in *; try reflexivity; rewrite ?orb_false_r in Ep; exact Ep.
+Qed.
+
+(* atoms on which a defective variant of the special-value pass changes the meaning:
+   LowerRegex lower-cases the regular expression of MATCHES on a registry-key path,
+   Unguarded lower-cases the base64 text of a binary constant there *)
+Definition safe_atom (v : variant) (a : atom) : bool :=
+  match special_kind (a_type a) (a_path a), a_rhs a with
+  | SpReg, KP (PStr s) =>
+    if is_matches (a_op a) then match v_regex v with KeepRegex => true | LowerRegex => ustr_eqb (lower s) s end else true
+  | SpReg, KP (PBin s) => match v_special v with Guarded => true | Unguarded => ustr_eqb (lower s) s end
+  | _, _ => true
+  end.
+
+Fixpoint safe_c (v : variant) (e : cexpr0) : bool :=
+  match e with
+  | Atom0 a => safe_atom v a
+  | And0 l => forallb (safe_c v) l
+  | Or0 l => forallb (safe_c v) l
+  | Paren0 e' => safe_c v e'
+  end.
+
+Fixpoint safe_o (v : variant) (e : oexpr0) : bool :=
+  match e with
+  | Obs0 c => safe_c v c
+  | OAnd0 l => forallb (safe_o v) l
+  | OOr0 l => forallb (safe_o v) l
+  | OFby0 l => forallb (safe_o v) l
+  | OQual0 e' _ => safe_o v e'
+  | OParen0 e' => safe_o v e'
+  end.
+
+Definition repaired : variant := mkVariant Guarded KeepRegex.
+
+Lemma safe_atom_repaired : forall a, safe_atom repaired a = true.
+Proof.
+  intro a. unfold safe_atom. destruct (special_kind (a_type a) (a_path a)); try reflexivity.
+  destruct (a_rhs a) as [[]|]; try reflexivity. simpl. destruct (is_matches (a_op a)); reflexivity.
+Qed.
+
+Fixpoint cexpr0_ind' (P : cexpr0 -> Prop)
+         (HA : forall a, P (Atom0 a))
+         (HAnd : forall l, Forall P l -> P (And0 l))
+         (HOr : forall l, Forall P l -> P (Or0 l))
+         (HP : forall e, P e -> P (Paren0 e)) (e : cexpr0) {struct e} : P e :=
+  let go := fix go (l : list cexpr0) : Forall P l :=
+              match l with
+              | [] => Forall_nil P
+              | x :: r => Forall_cons x (cexpr0_ind' P HA HAnd HOr HP x) (go r)
+              end in
+  match e with
+  | Atom0 a => HA a
+  | And0 l => HAnd l (go l)
+  | Or0 l => HOr l (go l)
+  | Paren0 e' => HP e' (cexpr0_ind' P HA HAnd HOr HP e')
+  end.
+
+Fixpoint oexpr0_ind' (P : oexpr0 -> Prop)
+         (HObs : forall c, P (Obs0 c))
+         (HAnd : forall l, Forall P l -> P (OAnd0 l))
+         (HOr : forall l, Forall P l -> P (OOr0 l))
+         (HFby : forall l, Forall P l -> P (OFby0 l))
+         (HQ : forall e q, P e -> P (OQual0 e q))
+         (HP : forall e, P e -> P (OParen0 e)) (e : oexpr0) {struct e} : P e :=
+  let go := fix go (l : list oexpr0) : Forall P l :=
+              match l with
+              | [] => Forall_nil P
+              | x :: r => Forall_cons x (oexpr0_ind' P HObs HAnd HOr HFby HQ HP x) (go r)
+              end in
+  match e with
+  | Obs0 c => HObs c
+  | OAnd0 l => HAnd l (go l)
+  | OOr0 l => HOr l (go l)
+  | OFby0 l => HFby l (go l)
+  | OQual0 e' q => HQ e' q (oexpr0_ind' P HObs HAnd HOr HFby HQ HP e')
+  | OParen0 e' => HP e' (oexpr0_ind' P HObs HAnd HOr HFby HQ HP e')
+  end.
+
+Lemma safe_c_repaired : forall e, safe_c repaired e = true.
+Proof.
+  induction e using cexpr0_ind'; simpl; auto using safe_atom_repaired;
+    apply forallb_forall; apply Forall_forall; assumption.
+Qed.
+
+Lemma safe_o_repaired : forall e, safe_o repaired e = true.
+Proof.
+  induction e using oexpr0_ind'; simpl; auto using safe_c_repaired;
+    apply forallb_forall; apply Forall_forall; assumption.
+Qed.
+
+Section NormSound.
+  Variable obj : Type.
+  Variable otype : obj -> ustring.
+  Variable H : ustring -> list step -> cop -> bool -> dconst -> obj -> bool.
+  Hypothesis Hden : respects_denotation obj H.
+  Hypothesis Hcidr : respects_cidr obj H.
+
+  Notation asem := (asem obj otype H).
+  Notation csem := (csem obj otype H).
+  Notation csem0 := (csem0 obj otype H).
+
+  Lemma asem_same_den : forall a a' x,
+      a_type a' = a_type a -> a_path a' = a_path a -> a_op a' = a_op a -> a_neg a' = a_neg a ->
+      den_atom a' = den_atom a -> asem a' x = asem a x.
+  Proof. intros a a' x Et Ep Eo En Ed. unfold PatternSemantics.asem. rewrite Et, Ep, Eo, En, Ed. reflexivity. Qed.
+
+  Lemma ip_strict_none : forall m v6 s t, special_text m (SpIp v6) true s = Ok t -> t = None.
+  Proof.
+    intros m v6 s t E. unfold special_text in E. destruct (ip_canon v6 s) as [| |s']; try (inversion E; reflexivity).
+    - destruct m; inversion E; reflexivity.
+    - destruct (ustr_eqb s' s); inversion E; reflexivity.
+  Qed.
+
+  Lemma ip_text_sound : forall v6 m a s t x,
+      special_kind (a_type a) (a_path a) = SpIp v6 -> a_rhs a = KP (PStr s) ->
+      special_text m (SpIp v6) false s = Ok t ->
+      asem (match t with Some s' => mkAtom (a_type a) (a_path a) (a_op a) (a_neg a) (KP (PStr s')) | None => a end) x = asem a x.
+  Proof.
+    intros v6 m a s t x Ek Er Et. pose proof (special_kind_ip _ _ _ Ek) as Hnreg.
+    unfold special_text in Et. destruct (ip_canon v6 s) as [| |s'] eqn:Ec.
+    - destruct m; inversion Et. reflexivity.
+    - inversion Et. reflexivity.
+    - inversion Et. unfold PatternSemantics.asem. simpl. f_equal.
+      unfold den_atom. simpl. rewrite Er, Hnreg. simpl. apply (Hcidr v6 _ _ _ _ s s' x Ek Ec).
+  Qed.
+
+  (* special_sound *)
+  Lemma special_atom_sound : forall v a a' x,
+      safe_atom v a = true -> special_atom v a = Ok a' -> asem a' x = asem a x.
+  Proof.
+    intros v a a' x Hs E. unfold special_atom in E. unfold safe_atom in Hs.
+    destruct (special_kind (a_type a) (a_path a)) as [| |v6] eqn:Ek.
+    - (* no canonicalisation on this path *)
+      simpl in E. destruct (v_regex v); inversion E; reflexivity.
+    - (* registry key *)
+      pose proof (special_kind_reg _ _ Ek) as Hreg.
+      destruct (a_rhs a) as [[z|m e|s|b|t|s|s]|l] eqn:Er.
+      + destruct (v_regex v); [|destruct (is_matches (a_op a))]; destruct (v_special v); inversion E; reflexivity.
+      + destruct (v_regex v); [|destruct (is_matches (a_op a))]; destruct (v_special v); inversion E; reflexivity.
+      + (* string: lower-cased *)
+        assert (Hlow : forall a2, a2 = mkAtom (a_type a) (a_path a) (a_op a) (a_neg a) (KP (PStr (lower s))) ->
+                                  (is_matches (a_op a) = true -> lower s = s) -> asem a2 x = asem a x).
+        { intros a2 -> Hm. apply asem_same_den; try reflexivity. unfold den_atom. simpl. rewrite Er, Hreg. simpl.
+          destruct (is_matches (a_op a)) eqn:Em; simpl.
+          - rewrite (Hm eq_refl). reflexivity.
+          - exact (f_equal (fun z => DP (DStr z)) (casefold_idem s)). }
+        destruct (v_regex v) eqn:Ev.
+        * simpl in E. inversion E. apply Hlow; [reflexivity|].
+          intro Em. rewrite Em in Hs. apply ustr_eqb_eq in Hs. exact Hs.
+        * destruct (is_matches (a_op a)) eqn:Em; simpl in E; inversion E; [reflexivity|].
+          apply Hlow; [reflexivity | discriminate].
+      + destruct (v_regex v); [|destruct (is_matches (a_op a))]; destruct (v_special v); inversion E; reflexivity.
+      + destruct (v_regex v); [|destruct (is_matches (a_op a))]; destruct (v_special v); inversion E; reflexivity.
+      + (* hex: the lower-cased text denotes the same bytes *)
+        assert (Hhex : asem (mkAtom (a_type a) (a_path a) (a_op a) (a_neg a) (KP (PHex (lower s)))) x = asem a x).
+        { apply asem_same_den; try reflexivity. unfold den_atom. simpl. rewrite Er. simpl.
+          exact (f_equal (fun z => DP (DHex z)) (hex_decode_fold s)). }
+        destruct (v_regex v); [|destruct (is_matches (a_op a))]; destruct (v_special v); simpl in E; inversion E;
+          try reflexivity; exact Hhex.
+      + (* binary: only when lower-casing leaves the text alone *)
+        destruct (v_special v) eqn:Es.
+        * apply ustr_eqb_eq in Hs.
+          assert (Hbin : asem (mkAtom (a_type a) (a_path a) (a_op a) (a_neg a) (KP (PBin (lower s)))) x = asem a x).
+          { apply asem_same_den; try reflexivity. unfold den_atom. simpl. rewrite Er. simpl. rewrite Hs. reflexivity. }
+          destruct (v_regex v); [|destruct (is_matches (a_op a))]; simpl in E; inversion E; try reflexivity; exact Hbin.
+        * destruct (v_regex v); [|destruct (is_matches (a_op a))]; simpl in E; inversion E; reflexivity.
+      + destruct (v_regex v); [|destruct (is_matches (a_op a))]; destruct (v_special v); inversion E; reflexivity.
+    - (* IP address *)
+      destruct (v_regex v) eqn:Ev; cbv beta zeta iota in E;
+        (destruct (a_rhs a) as [[z|m e|s|b|t|s|s]|l] eqn:Er;
+         [ destruct (v_special v); inversion E; reflexivity
+         | destruct (v_special v); inversion E; reflexivity
+         | apply bind_ok in E; destruct E as [t [Et E]]; inversion E; subst a'; apply (ip_text_sound v6 (v_special v) a s t x Ek Er Et)
+         | destruct (v_special v); inversion E; reflexivity
+         | destruct (v_special v); inversion E; reflexivity
+         | destruct (v_special v); [|inversion E; reflexivity];
+           apply bind_ok in E; destruct E as [t [Et E]]; rewrite (ip_strict_none _ _ _ _ Et) in E; inversion E; reflexivity
+         | destruct (v_special v); [|inversion E; reflexivity];
+           apply bind_ok in E; destruct E as [t [Et E]]; rewrite (ip_strict_none _ _ _ _ Et) in E; inversion E; reflexivity
+         | destruct (v_special v); inversion E; reflexivity ]).
+  Qed.
+
+  Lemma cspecial_sound : forall v e0 e,
+      safe_c v e0 = true -> cspecial v e0 = Ok e -> forall x, csem e x = csem0 e0 x.
+  Proof.
+    induction e0 using cexpr0_ind'; intros e Hs E x; unfold PatternSemantics.csem0 in *.
+    - simpl in E. apply bind_ok in E. destruct E as [a' [Ea E]]. inversion E; subst e. simpl.
+      apply (special_atom_sound v a a' x Hs Ea).
+    - simpl in E. apply bind_ok in E. destruct E as [l' [El E]]. inversion E; subst e. simpl.
+      apply mapM_Forall2 in El. simpl in Hs. rewrite forallb_forall in Hs. rewrite Forall_forall in H0.
+      symmetry. apply (Forall2_forallb (fun c => csem c x) (fun c => csem c x)).
+      clear E. revert Hs H0. induction El as [|c0 c l0 l1 Ec _ IHl]; intros Hs H0; simpl; constructor.
+      + symmetry. apply (H0 c0 (or_introl eq_refl) c (Hs c0 (or_introl eq_refl)) Ec x).
+      + apply IHl; [intros y Hy; apply Hs; right; exact Hy | intros y Hy; apply H0; right; exact Hy].
+    - simpl in E. apply bind_ok in E. destruct E as [l' [El E]]. inversion E; subst e. simpl.
+      apply mapM_Forall2 in El. simpl in Hs. rewrite forallb_forall in Hs. rewrite Forall_forall in H0.
+      symmetry. apply (Forall2_existsb (fun c => csem c x) (fun c => csem c x)).
+      clear E. revert Hs H0. induction El as [|c0 c l0 l1 Ec _ IHl]; intros Hs H0; simpl; constructor.
+      + symmetry. apply (H0 c0 (or_introl eq_refl) c (Hs c0 (or_introl eq_refl)) Ec x).
+      + apply IHl; [intros y Hy; apply Hs; right; exact Hy | intros y Hy; apply H0; right; exact Hy].
+    - simpl in E. simpl in Hs. simpl. apply (IHe0 e Hs E x).
+  Qed.
+
+  (* the comparison-level normaliser *)
+  Lemma cnormalize_sound : forall v fuel e0 e ch,
+      safe_c v e0 = true -> cnormalize v fuel e0 = Ok (e, ch) -> forall x, csem e x = csem0 e0 x.
+  Proof.
+    intros v fuel e0 e ch Hs E x. unfold cnormalize in E.
+    apply bind_ok in E. destruct E as [e1 [E1 E]].
+    apply bind_ok in E. destruct E as [[e2 c2] [E2 E]].
+    apply bind_ok in E. destruct E as [[e3 c3] [E3 E]].
+    apply bind_ok in E. destruct E as [[e4 c4] [E4 E]]. inversion E; subst e.
+    rewrite (csettle_sound obj otype H Hden fuel e3 e4 c4 E4 x).
+    destruct (cdnf_flat obj otype H fuel e2 e3 c3 (flat_csettle _ _ _ _ E2) E3) as [S3 _]. rewrite S3.
+    rewrite (csettle_sound obj otype H Hden fuel e1 e2 c2 E2 x).
+    apply (cspecial_sound v e0 e1 Hs E1 x).
+  Qed.
+End NormSound.
